@@ -76,26 +76,26 @@ Qed.
 
 (* members chosen through filter_packages are outside the initial set: a member
    inside it can only have come from the install_if loop *)
-Lemma members_filtered U W dq0 scheds S j :
-  resolve U W dq0 scheds = Ok S -> In j S -> In j dq0 -> p_install_if (nth j U dummy_pkg) <> [].
+Lemma members_filtered U W dq0 S j :
+  resolve U W dq0 = Ok S -> In j S -> In j dq0 -> p_install_if (nth j U dummy_pkg) <> [].
 Proof.
-  intros H Hj Hd. apply (resolve_ok _ _ _ _ _ (new_resolver_wf2 U)) in H. destruct H as [_ [H _]].
+  intros H Hj Hd. apply (resolve_ok _ _ _ _ (new_resolver_wf2 U)) in H. destruct H as [_ [H _]].
   rewrite Forall_forall in H. specialize (H j Hj). destruct H as [_ [N|I]]; [contradiction|].
   rewrite getp_new_resolver in I. unfold has_iif, cook_pkg in I; cbn [k_iifs] in I.
   intro E. rewrite E in I. discriminate.
 Qed.
 
-Lemma no_foreign_partial by_arch a U W scheds S :
+Lemma no_foreign_partial by_arch a U W S :
   In (a, U) by_arch -> (forall p, In p U -> p_install_if p = []) ->
-  resolve U W (dq_for by_arch a) scheds = Ok S ->
+  resolve U W (dq_for by_arch a) = Ok S ->
   forall j b V, In j S -> In (b, V) by_arch -> b <> a -> Available V (nth j U dummy_pkg).
 Proof.
   intros Ha Hno H j b V Hj Hb Hne.
-  pose proof (resolve_ok _ _ _ _ _ (new_resolver_wf2 U) H) as [_ [HM _]].
+  pose proof (resolve_ok _ _ _ _ (new_resolver_wf2 U) H) as [_ [HM _]].
   rewrite Forall_forall in HM. specialize (HM j Hj). destruct HM as [Vj _].
   unfold valid, new_resolver in Vj; cbn [r_pkgs] in Vj. rewrite map_length in Vj.
   destruct (available_in V (nth j U dummy_pkg)) eqn:B; [apply available_in_spec; exact B|].
-  exfalso. apply (members_filtered U W _ scheds S j H Hj).
+  exfalso. apply (members_filtered U W _ S j H Hj).
   - apply dq_for_spec. apply disqualify_difference_spec. split.
     + intro L. destruct by_arch as [|x [|y t]]; simpl in L; try discriminate.
       destruct Ha as [Ea|[]]. destruct Hb as [Eb|[]]. congruence.
